@@ -1055,10 +1055,10 @@ def elementwise(I, op, a, b, cmp=False):
             if x is y or (one_a and one_b):
                 stretch_a.append(False)
                 stretch_b.append(False)
-            elif one_b and a.ndim > 1:
+            elif one_b and (a.ndim > 1 or (a.kind == "ndarray" and b.kind == "ndarray")):
                 stretch_a.append(False)
                 stretch_b.append(True)        # numpy broadcasting: a dimension of size 1 is repeated
-            elif one_a and a.ndim > 1:
+            elif one_a and (a.ndim > 1 or (a.kind == "ndarray" and b.kind == "ndarray")):
                 stretch_a.append(True)
                 stretch_b.append(False)
             elif ctx.entails(Eq(x, y)):
